@@ -71,6 +71,11 @@ CHECKS = {
    text="Part 1 (complete): every rune from -2 to 0x110001 plus MinInt32/MaxInt32 as primary content through SetContent (every column, including the last) and through Fill, on 3x1 and 2x1 screens, in UTF-8, ISO8859-1, US-ASCII and GBK locales, on a DEC-ACS terminal (xterm-256color) and one without (sun): the reference terminal's strict tokenizer must accept every byte, no control function may take effect (bell, shift, charset, title, scroll), no C0/DEL/C1 may arrive as text, and runes that must be blanked show a blank. Part 2: BFS over draw histories (wide runes, styles, resize/corruption, mixed, and an extreme-values alphabet with long combining lists, odd colours, urls containing ; and %) with the tokenizer applied to every write block, which must end in the ground state.",
    note="The tokenizer is the reference terminal's parser (complete CSI/OSC/ESC grammar, numeric parameters only, valid charset bytes); zero-width classification follows go-runewidth as the statement says.",
    design="2/C09"),
+ "C17": dict(level="exploration",
+   technique="exhaustive enumeration of BMP runes x 24 charsets x 4 terminal classes through the real draw path into a charset-aware reference terminal, plus BFS over fallback registration histories",
+   text="For each of the 24 stateless charsets and four terminal classes (DEC ACS via ESC ( 0, DEC ACS via SO/SI, CP437 alternate font, no ACS) every BMP rune from U+0020 (+64 supplementary) is drawn as cell content and, when it is a zero-width mark, as a combining rune; the reference terminal decodes the written bytes in the same charset with the alternate character set interpreted through the entry's acsc pairs; the shown glyph must be the rune (if the codec round-trips it), else its ACS glyph, else the registered fallback, else '?', padded to the rune's width, the output must be valid in the charset (no raw UTF-8, no 0x1A), and CanDisplay must agree with the same decision. Fallback registration changes are explored as histories (depth 4/5) with a redraw after each change.",
+   note="x/text / gdamore/encoding codecs define the charsets (runes where the codec is asymmetric are skipped and counted); glyphs the description maps to the same ACS byte are treated as the same glyph; fallback strings are of the rune's width as the API requires.",
+   design="2/C17"),
  # --- new checks above this line ---
 }
 
